@@ -292,6 +292,8 @@ def decide(pid, spec, m, t, wall, nshards, replay=None):
 def worker(argv):
     pid, module_name, shard, nshards, out = argv[0], argv[1], int(argv[2]), int(argv[3]), argv[4]
     rec = Recorder(pid)
+    import warnings
+    warnings.simplefilter('ignore', SyntaxWarning)
     try:
         import_tally()
         mod = importlib.import_module(module_name)
